@@ -30,9 +30,9 @@ func init() {
 	mon.Register(&mon.Property{
 		ID:    "C02",
 		Level: "exploration",
-		Rule: "requirement structures (global or per-operation; 1..4 alternatives of 1..3 of the schemes S1..S5 with scopes; the empty alternative at any position; some schemes without a registered authenticator; in a quarter of the APIs one or two alternatives also name a scheme U1/U2 that is NO security definition of the document (an AND of declared and undeclared schemes, now and then an alternative of its own; with or without an authenticator registered under that name; never scripted to accept) and is therefore never satisfied; in a quarter the definitions are a mix of oauth2, apiKey and basic; authorizer absent/accepting/denying with a plain error/denying with an errors.Error of code 401, 403, 409 or 503/denying with a plain error that wraps an errors.Error; a quarter of the APIs hold 2..3 operations (or the API-wide list and operations) whose requirements are different groupings of ONE list of 2..4 (scheme, scopes) entries, e.g. A AND B next to A OR B; methods POST/PUT/PATCH/DELETE/GET, static paths and paths with a parameter) " +
+		Rule: "requirement structures (global or per-operation; 1..4 alternatives of 1..3 of the schemes S1..S5 with scopes; the empty alternative at any position; some schemes without a registered authenticator; in a quarter of the APIs one or two alternatives also name a scheme U1/U2 that is NO security definition of the document (an AND of declared and undeclared schemes, now and then an alternative of its own; with or without an authenticator registered under that name; never scripted to accept) and is therefore never satisfied; in a quarter the definitions are a mix of oauth2, apiKey and basic; authorizer absent/accepting/denying with a plain error/denying with an errors.Error of code 401, 403, 409 or 503/denying with a plain error that wraps an errors.Error; a quarter of the APIs hold 2..3 operations (or the API-wide list and operations) whose requirements are different groupings of ONE list of 2..4 (scheme, scopes) entries, e.g. A AND B next to A OR B; every method a path item can declare (GET PUT POST DELETE OPTIONS HEAD PATCH), static paths and paths with a parameter, now and then two or three operations under different methods on ONE path) " +
 			"x per-scheme outcome vectors read by scripted authenticators from request headers (n=not applicable, a=accept with principal, g:<scopes>=accept only requirements whose scopes are all granted else reject 403, z=accept with nil principal, r=reject with an errors.Error of code 401/403/418, with a 403 that still names the principal, or with a plain sentinel error that is no errors.Error and must come back as itself (errors.Is) from Context.Authorize and the exported Authenticate methods and as its text through the handler; all 4^n vectors for n<=4 schemes, sampled beyond) " +
-			"x invalid/valid query parameter x body behind a counting consumer x (a quarter of the requests) something else wrong: unconsumed or unparsable Content-Type, unservable Accept, undecodable body; every structure is rebuilt several times (in-alternative order and the order in which the router visits the operations are map orders fixed at build) and driven through the full handler, through the same pipeline behind a middleware that already asked Context.Authorize, through Context.Authorize (which on success is asked again on the returned request and once more after ResetAuth, and after a refusal is asked again with the same request) and, on one build in six, through the exported RouteAuthenticators.Authenticate (the OR) and every RouteAuthenticator.Authenticate (one AND) on fresh matched routes; in a third of the structures the schemes yield principals that are not non-empty strings (*struct, map, the empty string, a typed-nil pointer), compared by identity. An anonymous admission must have consulted a scheme of every non-empty alternative whose schemes are all declared and registered (how many consultations that takes is not judged). The authorizer must be shown a request with the served method and path; an admitted request that fails behind authentication (400/406/415/422) must reach the API's error responder carrying the warranted principal and the scopes of its alternative. A declared request for which RouteInfo finds no route is a violation, not a skip; an asking middleware that is handed no matched route looks the route up itself (classed). Probes (classed, never judged): per (structure, outcome vector) whether the builds of the structure gave different verdicts (probe:order-dependent-anonymous-admission: admitted in some builds, refused in others, with an empty alternative), whether refusal statuses differ between builds, whether the scopes slices handed to authenticators and askers are shared with later requests. " +
+			"x invalid/valid query parameter x body behind a counting consumer x (a quarter of the requests) something else wrong: unconsumed or unparsable Content-Type, unservable Accept, undecodable body; a third of the requests also carry header fields that are no credential of any scheme and that commonly get special treatment (the CORS preflight pair Origin + Access-Control-Request-Method with or without Access-Control-Request-Headers, either half alone, X-Forwarded-*/Forwarded/X-Real-Ip, Connection+Upgrade, Expect, X-HTTP-Method-Override and its variants naming the method of another operation, Connection; one or two groups): the expectation is that of the request without them; of the answer to a refused HEAD request only the status is judged (no body); every structure is rebuilt several times (in-alternative order and the order in which the router visits the operations are map orders fixed at build) and driven through the full handler, through the same pipeline behind a middleware that already asked Context.Authorize, through Context.Authorize (which on success is asked again on the returned request and once more after ResetAuth, and after a refusal is asked again with the same request) and, on one build in six, through the exported RouteAuthenticators.Authenticate (the OR) and every RouteAuthenticator.Authenticate (one AND) on fresh matched routes; in a third of the structures the schemes yield principals that are not non-empty strings (*struct, map, the empty string, a typed-nil pointer), compared by identity. An anonymous admission must have consulted a scheme of every non-empty alternative whose schemes are all declared and registered (how many consultations that takes is not judged). The authorizer must be shown a request with the served method and path; an admitted request that fails behind authentication (400/406/415/422) must reach the API's error responder carrying the warranted principal and the scopes of its alternative. A declared request for which RouteInfo finds no route is a violation, not a skip; an asking middleware that is handed no matched route looks the route up itself (classed). Probes (classed, never judged): per (structure, outcome vector) whether the builds of the structure gave different verdicts (probe:order-dependent-anonymous-admission: admitted in some builds, refused in others, with an empty alternative), whether refusal statuses differ between builds, whether the scopes slices handed to authenticators and askers are shared with later requests. " +
 			"Second sub-workload (one more API after every fifth, own PRNG stream): some of the registered schemes the requirements name are served by the library's own security.APIKeyAuth[Ctx] (in query, in header; parameter names with _, space, +, %, [], non-ASCII letters; header names defined in any letter case), BasicAuth[Ctx] and BearerAuth[Ctx] (at most one of each per API) behind a wrapper that only writes the call log; their callbacks accept, accept without principal or reject (401/403/418/with principal/plain error/by granted scopes) by the VALUE of the credential they are shown, and a text that is no credential of the scheme is rejected with 401; the other schemes stay scripted. The requests spell the credentials in the ways HTTP allows: query parameter names and values in the canonical escaping, with %20 or + for a space, with bytes percent-encoded that need not be (upper and lower case hex), wholly percent-encoded, reserved characters that may stand for themselves left alone, values that hold +, &, =, %, %41, ;, non-ASCII; the parameter twice with one value; parameters whose names or values only contain the name; the parameter before and behind the operation's own; header names in any letter case; Basic in any letter case, now and then with a wrong password; the bearer token in the Authorization header or as access_token in the query; credentials of schemes the operation does not name. The outcome of such a scheme for a request is read off the request as sent (query decoded by net/url, header by canonical name, Basic from base64), never from the library; the oracle is the same. " +
 			"Oracle over the observed authenticator call log. non-trivial = (structure hash, operation, outcome vector, observed call order) with >= 2 schemes in the operation's requirements or an empty alternative; distinct by that tuple",
 		Assumptions: []string{
@@ -46,6 +46,7 @@ func init() {
 			"the scripted authorizer decides independently of the principal; the principal it is shown is judged",
 			"a principal is non-nil when the interface value the authenticator returned is not nil: the empty string and a typed-nil pointer are principals",
 			"real authenticators: a request that carries several different values for one credential, an empty value, two Authorization headers, a bearer token both in the header and in the query, or Basic credentials that are no base64 user:password pair is not generated and not judged (what 'the' credential is then is not stated); the auth-scheme of the Authorization header is case-insensitive (RFC 7235) - other letter cases of Bearer are judged on replay but left out of the generator (TRIAGE-PENDING in real.go); more than one space behind the auth-scheme and bearer tokens in a form body are not driven",
+			"header fields that are no credential of any generated scheme (Origin, Access-Control-Request-*, X-Forwarded-*, Forwarded, X-Real-Ip, Upgrade, Expect, X-HTTP-Method-Override and variants, Connection) change nothing about what a secured operation answers, under any method; the answer to a HEAD request has no body (RFC 9110), so of a refused HEAD request the status is judged and the error text only when a body is there",
 			"of the exported Authenticate methods only admissions (applies, principal, no error), the error of a refusal and the alternative recorded for an admission are judged; the value of applies on a refusal and what the matched route records after a refusal are not",
 		},
 		MinNontrivial: 300,
@@ -70,6 +71,10 @@ type Request struct {
 	// Wire: how the credentials of the schemes served by the library's own authenticators (Case.RealAuth) are
 	// spelled in this request; the outcomes of those schemes are read off the request, not from Outcomes
 	Wire *Wire `json:"wire,omitempty"`
+	// Extra: header fields that are no credential of any scheme and that commonly get special treatment somewhere
+	// (the CORS preflight pair, X-Forwarded-*, Upgrade, Expect, method override, Connection; decor.go), added to the
+	// request as they are. The oracle does not read them: the expectation is that of the request without them.
+	Extra [][2]string `json:"extra,omitempty"`
 }
 
 // Case is a requirement structure, its registrations and the requests sent to it.
@@ -327,6 +332,9 @@ func buildRequest(c *Case, rq *Request) *http.Request {
 			r.Header.Add(h[0], h[1]) // the server's parser keys the header by its canonical name, as Add does
 		}
 	}
+	for _, h := range rq.Extra {
+		r.Header.Add(h[0], h[1])
+	}
 	return r
 }
 
@@ -465,6 +473,19 @@ func runCase(m *mon.M, c *Case) {
 				feat += "+" + rq.Variant
 			}
 			feat += wireFeats[ri]
+			// the method of the operation and the decorating header fields of the request (input only; decor.go)
+			feat += methodClass(op.Method) + decorClass(rq.Extra)
+			if bi == 0 {
+				m.Class("input:method-" + op.Method)
+				if dc := decorClass(rq.Extra); dc != "" && len(alts) > 0 {
+					for _, g := range strings.Split(strings.TrimPrefix(dc, "+hdr:"), ",") {
+						m.Class("input:secured-op-request-with-hdr:" + g)
+						if g == "cors-preflight-pair" { // a preflight is that pair on an OPTIONS request
+							m.Class("input:secured-" + op.Method + "-with-cors-preflight-pair")
+						}
+					}
+				}
+			}
 			if bi == 0 && len(c.RealAuth) > 0 {
 				realClasses(m, c, rq, wireFeats[ri])
 			}
@@ -877,7 +898,7 @@ func judgeHandler(m *mon.M, c *Case, s *sut, rq *Request, alts []gen.SecReq, ref
 	// (3) the refusal is the right one
 	switch {
 	case (admittedBySatisfied || admittedAnon) && authzDenies:
-		if !authorizerStatusOK(c.Authorizer, status) || !strings.Contains(body, "authorizer-says-no") {
+		if !authorizerStatusOK(c.Authorizer, status) || !answerNames(c.Desc.Ops[rq.Op].Method, body, "authorizer-says-no") {
 			m.Violate("authorizer-denial-wrong-answer/"+feat, desc(), one)
 			return
 		}
@@ -902,7 +923,7 @@ func judgeHandler(m *mon.M, c *Case, s *sut, rq *Request, alts []gen.SecReq, ref
 		plainOnly := true
 		for sch, code := range rejecters {
 			// an error without a status of its own is answered with the error responder's status: its text is judged
-			if (code == anyStatus || status == code) && strings.Contains(body, "rejected-by-"+sch) {
+			if (code == anyStatus || status == code) && answerNames(c.Desc.Ops[rq.Op].Method, body, "rejected-by-"+sch) {
 				ok = true
 			}
 			if code != anyStatus {
@@ -924,6 +945,16 @@ func judgeHandler(m *mon.M, c *Case, s *sut, rq *Request, alts []gen.SecReq, ref
 		}
 		m.Class("refused-401")
 	}
+}
+
+// answerNames: the body of the answer holds the text of the error. The answer to a HEAD request has no body
+// (RFC 9110 section 9.3.2): of a refusal of a HEAD request only the status is judged; a body that is there all the same
+// must hold the text.
+func answerNames(method, body, text string) bool {
+	if method == http.MethodHead && body == "" {
+		return true
+	}
+	return strings.Contains(body, text)
 }
 
 // principalWarranted: p is the principal of a scheme of some satisfied alternative, or nil when only
@@ -1413,9 +1444,12 @@ func genCase(r *rand.Rand, builds int, maxReq int) *Case {
 			Params:   []gen.Param{qparam, {Name: "body", In: "body"}},
 			Consumes: []string{"application/json"}, Produces: []string{"application/json"}}
 		if r.Intn(3) == 0 { // security does not depend on the method or on the shape of the path
-			op.Method = []string{"PUT", "PATCH", "DELETE", "GET"}[r.Intn(4)]
+			op.Method = []string{"PUT", "PATCH", "DELETE", "GET", "OPTIONS", "HEAD", "OPTIONS", "HEAD"}[r.Intn(8)]
 		}
-		if r.Intn(3) == 0 {
+		// now and then on the path of an earlier operation, under another method
+		if i > 0 && r.Intn(4) == 0 && shareTemplate(r, &d, &op) {
+			// the path (and its parameter) is the earlier operation's
+		} else if r.Intn(3) == 0 {
 			op.Template += "/{id}"
 			op.Params = append(op.Params, gen.Param{Name: "id", In: "path", Type: "string", Required: true})
 		}
@@ -1534,6 +1568,15 @@ func genCase(r *rand.Rand, builds int, maxReq int) *Case {
 			rq := Request{Op: oi, Outcomes: o, BadQuery: r.Intn(2) == 0, Body: r.Intn(2) == 0}
 			if r.Intn(4) == 0 { // something else is wrong with the request
 				rq.Variant = variants[r.Intn(len(variants))]
+			}
+			if r.Intn(3) == 0 { // header fields that are nobody's credential and that something might treat specially
+				var others []string
+				for oj := range d.Ops {
+					if oj != oi {
+						others = append(others, d.Ops[oj].Method)
+					}
+				}
+				rq.Extra = decorate(r, others)
 			}
 			c.Requests = append(c.Requests, rq)
 		}
